@@ -131,7 +131,7 @@ def amp_of(ks):
   """Error amplification bound of a chain of step-down/step-up stages."""
   amp = 1.0
   for k in ks:
-    d = abs(1 - abs(float(k)))
+    d = float(abs(1 - abs(F(k))))    # exact first: |k| may round to 1.0
     amp *= max(1.0, 1.0 / d) if d else 1.0
   return amp
 
@@ -216,7 +216,10 @@ def rand_poles(rng):
       reals.append(rand_real(rng, where, hair=n <= 2))
     else:
       pairs.append(rand_pair(rng, where))
-  if rng.random() < 0.12:
+  hairy = any(abs(abs(p) - 1) < F(1, 10 ** 6) and abs(p) != 1 for p in reals)
+  if rng.random() < 0.12 and not hairy:
+    # (not with poles a hair off the circle: the exact zeros put the library
+    # on its float path, where such a pole is indistinguishable from |k| = 1)
     # mirrored set P u -P: a polynomial in z^-2, every odd reflection
     # coefficient is exactly zero (the library's float-zero injection path)
     reals, pairs = reals[:2], pairs[:2 - len(reals[:2])]
@@ -540,13 +543,16 @@ def run_stab(ctx, case):
       exact = True
       amp = 1.0
       for j, want in enumerate(ks):
+        # (first: once the library is on its float path - after an exact zero
+        # - and a coefficient came within 1e-4 of +-1, neither the values nor
+        # a premature |k| == 1.0 / ParCorError mean anything)
+        if not exact and amp > 1e4:
+          ctx.count("parcor:value-unjudged-ill-conditioned-float")
+          break
         if j >= len(yielded):
           ctx.violation("parcor/too-few-coefficients", case, yielded=yielded,
                         want=ks)
           return True
-        if not exact and amp > 1e4:
-          ctx.count("parcor:value-unjudged-ill-conditioned-float")
-          break
         ok, err, was_exact = close(yielded[j], want, 1e-10 * amp)
         ctx.count("cmp:exact" if was_exact else "cmp:toleranced")
         if not was_exact:
@@ -557,7 +563,7 @@ def run_stab(ctx, case):
           return True
         if want == 0:
           exact = False
-        d = abs(1 - abs(float(want)))
+        d = float(abs(1 - abs(want)))     # exact first: |want| may round to 1.0
         amp *= max(1.0, 1.0 / d) if d else 1.0
       if ks and abs(ks[-1]) == 1 and exact:
         ctx.count("parcor:unit-k-reached-exactly")
@@ -603,14 +609,14 @@ def run_rt(ctx, case):
   amp = 1.0
   all_exact = True
   for j, want in enumerate(want_seq):
-    if j >= len(yielded):
-      ctx.violation("parcor/too-few-coefficients", case, yielded=yielded,
-                    want=want_seq)
-      return True
     if not exact and amp > 1e4:
       ctx.count("parcor:value-unjudged-ill-conditioned-float")
       all_exact = False
       break
+    if j >= len(yielded):
+      ctx.violation("parcor/too-few-coefficients", case, yielded=yielded,
+                    want=want_seq)
+      return True
     ok, err, was_exact = close(yielded[j], want, 1e-10 * amp)
     ctx.count("cmp:exact" if was_exact else "cmp:toleranced")
     all_exact = all_exact and was_exact
@@ -622,7 +628,7 @@ def run_rt(ctx, case):
       return True
     if want == 0:
       exact = False
-    d = abs(1 - abs(float(want)))
+    d = float(abs(1 - abs(want)))     # exact first: |want| may round to 1.0
     amp *= max(1.0, 1.0 / d) if d else 1.0
   else:
     if stop is None:
